@@ -200,11 +200,15 @@ type workerResult struct {
 }
 
 func (c *Ctx) result(casesRun int, completed bool) *workerResult {
+	c.mu.Lock()
+	defer c.mu.Unlock()
 	r := &workerResult{Worker: c.Worker, Evals: c.evals, Counters: c.counters, Samples: c.samples,
 		Violations: c.violations, ViolKeys: c.violKeys, CasesRun: casesRun, Completed: completed,
 		Sets: map[string][]string{}}
-	for k := range c.distinct {
-		r.Distinct = append(r.Distinct, k)
+	if completed { // the (possibly large) distinct set is only written by the final flush
+		for k := range c.distinct {
+			r.Distinct = append(r.Distinct, k)
+		}
 	}
 	for name, m := range c.sets {
 		for item := range m {
@@ -296,7 +300,7 @@ func RunWorker(p *Property, tier Tier, seed int64, worker, n int, outDir string,
 		fmt.Fprintf(logf, "case %d\n", idx)
 		runCase(c, idx)
 		casesRun++
-		if casesRun%64 == 0 {
+		if casesRun%256 == 0 {
 			flush(false)
 		}
 	}
